@@ -441,6 +441,37 @@ def c16_kleene_star(t: T3, m: int, starts: int, finals: int) -> bool:
     return chx.judge("C16", cond, raw, (ctrans, cst, cfi), (res, tr), _star_oracle, realize_obs=False)
 
 
+# state names that look like the names kleene_star() / the renaming invent ("star", name + counter)
+STAR_LABELS = [("star", "q1"), ("q0", "star"), ("star", "star0"), ("star0", "star"), ("star", "star1")]
+
+
+def c16_star_names(t: T2, m: int, starts: int, finals: int, lab: int) -> bool:
+    """
+    pre: pinned(m=m, starts=starts, finals=finals, lab=lab, t0=t[0])
+    pre: 1 <= m <= 2 and 0 <= starts < 4 and 0 <= finals < 4 and 0 <= lab < 5
+    pre: member(starts, param("starts_in", None)) and member(finals, param("finals_in", None))
+    pre: codes_ok(t, m, param("nslots", 16)) and member(t[0], param("t0_in", None))
+    post: _
+    """
+    cond = "c16_star_names"
+    codes, mm, trans = decode_codes(t, m, SLOTS2)
+    sv, st = pmask(starts, 2)
+    fv, fi = pmask(finals, 2)
+    lb = enc.pick(lab, 5)
+    labels = list(STAR_LABELS[lb])
+    ctrans = concrete_trans(trans, labels, OUTS4)
+    cst = [labels[q] for q in st]
+    cfi = [labels[q] for q in fi]
+    if not _valid(ctrans, cst, cfi):
+        return chx.assumed_away(cond)
+    raw = (codes, mm, sv, fv, lb)
+    chx.enter(cond, raw)
+    fst = build_fst(ctrans, cst, cfi)
+    res = chx.guarded(fst.kleene_star)
+    tr = _translations(res[1], WORDS_RES) if _result_translatable(res) else None
+    return chx.judge("C16", cond, raw, (ctrans, cst, cfi), (res, tr), _star_oracle, realize_obs=False)
+
+
 # ----------------------------------------------------------------------------------------
 # (c) FiniteAutomaton.to_fst() = identity on the language
 
@@ -758,4 +789,14 @@ CONDS = [
                       + VALID},
          F_TRANSLATE, "the FST has a transition and relates some word of length <=2 to an output",
          tiers=("thorough",), assumptions=ASSUME),
+    Cond("C16", c16_star_names,
+         lambda tier: [dict(m=1, starts=st_, finals=fi_, lab=lb_, nslots=16) for lb_ in range(5)
+                       for (st_, fi_) in ((1, 2), (3, 3))] +
+                      [dict(m=2, starts=st_, finals=fi_, lab=lb_, nslots=16 if tier == "thorough" else 8)
+                       for lb_ in range(5) for (st_, fi_) in (((1, 2), (3, 3), (1, 3)) if tier == "thorough" else ((1, 2),))],
+         {"quick": "kleene_star of 2-state FSTs whose states are called like the names the construction invents "
+                   "(('star',q1), (q0,'star'), ('star','star0'), ('star0','star'), ('star','star1')): 1 transition "
+                   "(outputs {[],[x]}) x masks {start q0, final q1} / {all}, 2 transitions without output x one mask; " + VALID,
+          "thorough": "2 transitions with outputs {[],[x]} x 3 masks"},
+         F_STAR, "the FST has a transition and its star relates more than the empty pair", assumptions=ASSUME),
 ]
